@@ -29,7 +29,7 @@ theorem addrIntOf_append {ra rb : List Stmt} {j n : Nat} (h : addrIntOf ra j = s
   | none => rw [hx] at h; cases h
   | some x => rw [addrOf_append hx]; rw [hx] at h; exact h
 
-theorem addrOther_append {ra rb : List Stmt} {v : Value} {n : Nat} (h : addrOther ra v = .ok n) :
+theorem addrOther_append {ra rb : List Stmt} {v : Value} {n : Int} (h : addrOther ra v = .ok n) :
     addrOther (ra ++ rb) v = .ok n := by
   unfold addrOther at h ⊢
   by_cases hA : v.isAddress = true
@@ -135,6 +135,7 @@ def fixPart3 (ss : List Stmt) (i : Nat) (s2 : Stmt) : Outcome Stmt :=
     | .ok r, some start =>
       let jump : Int := (r : Int) - start - s2.pkg.size
       let jump : Int := (jump + 0x8000) % 0x10000 - 0x8000
+      if s2.pcrHint ≠ 4 ∧ (jump < -128 ∨ jump > 127) then .diag else
       let jump : Int := if s2.pcrHint = 4 then jump % 0x10000 else jump
       (match numericOfInt jump (some s2.pcrHint) .none with
        | .ok v => .ok { s2 with pkg := { s2.pkg with additional := v } }
